@@ -696,13 +696,19 @@ class ObjectMethod(DeserializationMethod):
                 for key in data.keys() - self.all_aliases:
                     values[key] = data[key]
         if self.validators:
+            # field_errors is keyed by alias, dependencies are field names
+            invalid_names = (
+                {f.name for f in self.fields if f.alias in field_errors}
+                if field_errors
+                else set()
+            )
             init = None
             if self.init_defaults:
                 init = {}
                 for name, default_factory in self.init_defaults:
                     if name in values:
                         init[name] = values[name]
-                    elif not field_errors or name not in field_errors:
+                    elif name not in invalid_names:
                         assert default_factory is not None
                         init[name] = default_factory()
             aliases = values.keys()
@@ -714,7 +720,7 @@ class ObjectMethod(DeserializationMethod):
                 error = ValidationError(errors or [], field_errors or {})
                 invalid_fields = self.post_init_modified
                 if field_errors:
-                    invalid_fields = invalid_fields | field_errors.keys()
+                    invalid_fields = invalid_fields | field_errors.keys() | invalid_names
                 try:
                     validate(
                         ValidatorMock(self.constructor.cls, values),
